@@ -96,8 +96,28 @@ func suiteQuorum(c *Ctx) {
 		ms := make([]interfaces.CommitteeMember, n)
 		mws := make([]primitives.MemberWeight, n)
 		sum := new(big.Int)
+		fam := r.Intn(8)
+		c.Class(fmt.Sprintf("ids/family%d", fam))
 		for i := range ms {
 			id := []byte{byte(i + 1), byte(it)}
+			switch fam {
+			case 4: // 20-byte ids with a common three-byte prefix
+				id = make([]byte, 20)
+				id[0], id[1], id[2], id[3], id[19] = 0xa7, 1, 2, byte(i+1), byte(it)
+			case 5: // ids longer than 20 bytes that share their first 20 bytes
+				id = make([]byte, 22+i%3)
+				for k := 0; k < 20; k++ {
+					id[k] = byte(0x40 + k)
+				}
+				id[20], id[21] = byte(i+1), byte(it)
+			case 6: // ids that differ only by trailing zero bytes
+				id = append([]byte{0x77, byte(it)}, make([]byte, i)...)
+			case 7: // ids of mixed lengths, one a prefix of the other
+				id = append([]byte{0x55}, make([]byte, 0)...)
+				for k := 0; k <= i; k++ {
+					id = append(id, byte(k+1))
+				}
+			}
 			if r.Intn(50) == 0 {
 				id = []byte{} // empty id
 			}
